@@ -56,6 +56,14 @@ FAM = {
     "nested_parens_expr": lambda n: "print(" + "(" * n + "1" + "+1)" * n + ")\n",
     "dict_display": lambda n: "d = {" + ",".join("%d:%d" % (i, i) for i in range(n)) + "}\nprint(len(d))\n",
     "unary_chain": lambda n: "print(" + "-" * n + "1)\n",
+    # interrupts inside long chains / long runs of guards (each guard opens a run-time-guarded section)
+    "elif_return": lambda n: "def f(x):\n    if x == 0:\n        return 0\n" + "".join("    elif x == %d:\n        return %d\n" % (i, i) for i in range(1, n)) + "    return -1\nprint(f(%d), f(-5))\n" % (n - 1),
+    "elif_continue": lambda n: "t = 0\nfor x in [%d, 0, -1]:\n    if x == 0:\n        continue\n" % (n - 1) + "".join("    elif x == %d:\n        continue\n" % i for i in range(1, n)) + "    t += 1\nprint(t)\n",
+    "elif_break_in_while": lambda n: "x = %d\nwhile True:\n    if x == 0:\n        break\n" % (n - 1) + "".join("    elif x == %d:\n        break\n" % i for i in range(1, n)) + "    x -= 1\nprint(x)\n",
+    "guards_return": lambda n: "def f(x):\n" + "".join("    if x == %d:\n        return %d\n" % (i, i) for i in range(n)) + "    return -1\nprint(f(%d), f(-1))\n" % (n - 1),
+    "guards_continue": lambda n: "t = 0\nfor x in [0, %d, -1]:\n" % (n - 1) + "".join("    if x == %d:\n        continue\n" % i for i in range(n)) + "    t += 1\nprint(t)\n",
+    "many_returns_flat": lambda n: "def f(x):\n" + "".join("    if x > %d: return %d\n" % (n - i, i) for i in range(n)) + "    return x\nprint(f(0), f(%d))\n" % (n + 1),
+    "loop_with_many_breaks": lambda n: "for i in range(%d):\n" % (n + 2) + "".join("    if i == %d + %d: break\n" % (n, k) for k in range(n)) + "print(i)\n",
 }
 # a long chain in every *context* the expression rewriter treats specially (each has its own pending class / scan)
 _CH = lambda n: "+".join(["x"] * n)
@@ -119,6 +127,8 @@ def known_limit(fam, cfg, n, r, host):
     top = [f for f, _ in loc.get("top_files", [])]
     if r.get("stage") != e["stage"] or r.get("error") != e["error"] or n < e["min_n"]:
         return None
+    if e["error"] == "SyntaxError" and "too many nested parentheses" not in (r.get("msg") or ""):
+        return None
     if e["location"] == "stdlib-ast" and not (top and top[0] == "ast.py" and in_repo <= 6):
         return None
     if e["location"] == "compiler" and in_repo > 0:
@@ -145,7 +155,17 @@ def run_shard(rec):
             if idx % rec.nshards != rec.shard:
                 continue
             failed_known = False
-            for n in schedule(rec.tier):
+            bisected = False
+            extra = []
+            sched = schedule(rec.tier)
+            k = 0
+            while k < len(sched) or extra:
+                if k < len(sched):
+                    n = sched[k]
+                    k += 1
+                else:
+                    n = extra.pop(0)
+                    k = len(sched)
                 if rec.out_of_budget():
                     rec.truncated += 1
                     break
@@ -156,6 +176,20 @@ def run_shard(rec):
                 if st in ("source-compile", "source-run"):
                     rec.count("source-refused-by-cpython")
                     rec.note("largest N stopped by CPython itself", "%s@%d:%s" % (fam, n, r.get("source_error", "")[:40]))
+                    # bisection: the largest size CPython still accepts for the *source* lies between the last
+                    # size that was run and n - it must convert too
+                    lo, hi = n // 2, n
+                    if lo >= 2 and not failed_known and not bisected:
+                        bisected = True
+                        while hi - lo > 1:
+                            mid = (lo + hi) // 2
+                            try:
+                                compile(FAM[fam](mid), "<s>", "exec")
+                                lo = mid
+                            except (SyntaxError, ValueError, RecursionError, MemoryError, OverflowError):
+                                hi = mid
+                        if lo > n // 2:
+                            extra.append(lo)
                     break
                 if st == "watchdog":
                     rec.inconc("watchdog")
